@@ -21,6 +21,7 @@ import (
 	"sort"
 	"strings"
 	"sync"
+	"sync/atomic"
 	"testing"
 	"time"
 
@@ -205,6 +206,17 @@ func genCase(r *rand.Rand) caseSpec {
 	return c
 }
 
+// fastClock is kraken's mock clock with Now/Set served from an atomic:
+// clock.Mock.Set sleeps 1 ms per call to let timers run, and RedisStore only
+// ever calls Now.
+type fastClock struct {
+	*clock.Mock
+	ns atomic.Int64
+}
+
+func (c *fastClock) Now() time.Time  { return time.Unix(0, c.ns.Load()).UTC() }
+func (c *fastClock) Set(t time.Time) { c.ns.Store(t.UnixNano()) }
+
 type peerKey struct {
 	id   core.PeerID
 	addr string
@@ -225,7 +237,7 @@ func TestC28(t *testing.T) {
 	log.SetGlobalLogger(zap.NewNop().Sugar())
 
 	const workers = 8
-	nPeers := run.N(16000, 400000) / workers
+	nPeers := run.N(40000, 1200000) / workers
 	var wg sync.WaitGroup
 	for w := 0; w < workers; w++ {
 		wg.Add(1)
@@ -249,7 +261,7 @@ func worker(t *testing.T, run *ev.Run, wid, nPeers int) {
 
 	r := run.Rand(fmt.Sprintf("worker-%d", wid))
 	base := time.Date(2100, 1, 1, 0, 0, 0, 0, time.UTC)
-	clk := clock.NewMock()
+	clk := &fastClock{Mock: clock.NewMock()}
 	clk.Set(base)
 	mr.SetTime(base)
 
